@@ -609,9 +609,19 @@ def _shape_form(t: ast.Tuple, bname, call, defs) -> str:
 def _returned_copy_closure(fn) -> set:
     """names whose value reaches a `return` through copy assignments only"""
     R = set()
+
+    def ret_names(e):
+        # the tensor a return hands back: a name, either arm of a conditional expression, the receiver of a chain of layout methods
+        if isinstance(e, ast.Name):
+            return {e.id}
+        if isinstance(e, ast.IfExp):
+            return ret_names(e.body) | ret_names(e.orelse)
+        if isinstance(e, ast.Call) and isinstance(e.func, ast.Attribute) and e.func.attr in ("transpose", "squeeze", "unsqueeze", "reshape", "view", "movedim", "permute", "swapaxes", "contiguous"):
+            return ret_names(e.func.value)
+        return set()
     for n in own_nodes(fn):
-        if isinstance(n, ast.Return) and isinstance(n.value, ast.Name):
-            R.add(n.value.id)
+        if isinstance(n, ast.Return) and n.value is not None:
+            R |= ret_names(n.value)
     changed = True
     while changed:
         changed = False
